@@ -2,7 +2,8 @@
 From Coq Require Import ZArith QArith Qround List Bool Reals.
 From Flocq Require Import Core IEEE754.BinarySingleNaN.
 From KV Require Import Base.IEEE Base.Outcome Base.Num C19.Model C06.Model C06.Dur C06.Proofs C01.Model
-  C05.Model C05.Shared C05.ProofsClock C05.ProofsEvent C05.ProofsSpeed C05.ProofsShared.
+  C05.Model C05.Shared C05.ProofsClock C05.ProofsEvent C05.ProofsSpeed C05.ProofsShared
+  C05.Pickup C05.ProofsPickup.
 Import ListNotations.
 Local Open Scope Q_scope.
 
@@ -306,3 +307,35 @@ Theorem stop_store_race_refuted :
   let s := run_sched [Audio; Handle; Handle; Audio; Handle; Handle] (init_st [(5, b075)%Z] [HStop; HRead]) in
   exists r, h_reads s = [r] /\ (r_tk r, r_fr r) = (0, b075)%Z /\ forall k, (r_tk r, r_fr r) <> hist [(5, b075)%Z] k.
 Proof. exact stop_store_race. Qed.
+
+(** [Info::when_to_start] decides on the clock's own TWO WORDS, tick count first, then fraction — for
+    ANY number type and any operations on it, hence bit for bit for binary64: the event is due iff the
+    clock is ticking and either its tick count is past the target's, or the tick counts are equal and
+    [f64::partial_cmp] puts the clock's fraction at or above the target's.  In particular a clock whose
+    tick count is still below the target's is never due, however close to 1.0 its fraction is (the two
+    words are never added up into one rounded number). *)
+Theorem event_time_test_two_words :
+  forall (T : Type) (NT : Num T) (i : info T) (c : nat) (tk : Z) (fr : T) (ticking : bool) (ctk : Z) (cfr : T),
+    nth_error (i_clocks i) c = Some (Some (ticking, ctk, cfr)) ->
+    (when_to_start i c tk fr = Now <->
+       ticking = true /\
+       ((tk < ctk)%Z \/
+        (ctk = tk /\ match ncompare cfr fr with Some Gt | Some Eq => true | _ => false end = true))) /\
+    ((ctk < tk)%Z -> when_to_start i c tk fr = Later).
+Proof. exact (fun T NT => @when_to_start_two_words T NT). Qed.
+
+(** Pick-up order.  The user's thread creates a clock and THEN gives a track a sound that waits for a
+    time of that clock, while the audio thread is anywhere in its callback ([pc]) and the two threads
+    interleave in ANY way ([sched]).  With the order of [Renderer::on_start_processing] (the mixer
+    drains the tracks' new sounds first, the clocks are drained second) no buffer is ever rendered in
+    which the audio thread has the sound but not the clock: the sound is never cancelled ([Never])
+    while its clock exists ... *)
+Theorem pickup_clock_before_waiter :
+  forall (pc : nat) (sched : list ptid), (pc < 3)%nat ->
+    p_cancelled (prun (callback kira_order) sched (pinit pc)) = false.
+Proof. exact pickup_never_cancelled. Qed.
+(** ... whereas with the two drains the other way round there is a schedule (the user's two calls fall
+    between the drains) in which it is. *)
+Theorem pickup_swapped_order_refuted :
+  exists sched : list ptid, p_cancelled (prun (callback swapped_order) sched (pinit 0)) = true.
+Proof. exact pickup_swapped_cancels. Qed.
